@@ -54,7 +54,7 @@ Definition bool_display (b : bool) : list N := if b then s_true else s_false.
 
 (* One iteration of the loop body of Display for Value.
    State: print_hex_byte_array.  Result: the new state and the text written. *)
-Definition val_step (print_hex_byte_array : bool) (data : @vpo_item value) : bool * list N :=
+Definition val_step (print_hex_byte_array : bool) (data : vpo_item value) : bool * list N :=
   let '(node, n_children_yielded, is_complete) := data in
   match node with
   | ALeft _ _ =>
@@ -98,7 +98,7 @@ Definition val_step (print_hex_byte_array : bool) (data : @vpo_item value) : boo
   end.
 
 (* the `for data in ..` loop *)
-Fixpoint val_loop (print_hex_byte_array : bool) (items : list (@vpo_item value)) : list N :=
+Fixpoint val_loop (print_hex_byte_array : bool) (items : list (vpo_item value)) : list N :=
   match items with
   | [] => []
   | data :: rest =>
